@@ -17,6 +17,7 @@ import (
 	"math/rand"
 	"runtime"
 	"sort"
+	"strings"
 	"time"
 
 	logger "github.com/multiversx/mx-chain-logger-go"
@@ -47,7 +48,7 @@ const (
 	opUnRegister
 )
 
-var allKeys = [][]byte{[]byte("a"), []byte("b"), {}, []byte("c"), []byte("aa"), []byte("d"), []byte("e")} // the empty key is legal
+var allKeys = [][]byte{[]byte("a"), []byte("b"), {}, []byte("c"), []byte("aa"), []byte("d"), []byte("e")}                          // the empty key is legal
 var allVals = [][]byte{[]byte("v1"), []byte("v2"), []byte("V1"), []byte("w"), {0x80}, {0xff}, {}, core.NilValue, core.LongValue()} // incl. the untyped nil (negative-caching marker)
 var allIDs = [][]byte{[]byte("h1"), []byte("h2"), []byte("h3")}
 
@@ -145,6 +146,32 @@ func (x xop) addTo(h *core.History) {
 // Exhaustive: every op sequence of a fixed length (prefixes are covered because observables are
 // printed after every op) over three alphabets of 10 op instances on 3 keys.
 func (comp) Exhaustive(prop string, tier string, yield func(*core.History)) {
+	if strings.HasSuffix(prop, ":scale") {
+		// MONITOR-ONLY scale histories (the model is not run: the reference LRU of the monitor is the oracle): populations beyond
+		// the powers of two at which batching / in-place thresholds are typically placed (1024, 4096), then Clear, then a refill
+		for kind := 0; kind < 2; kind++ {
+			for _, capacity := range []int{1100} {
+				n := capacity + 150
+				name := func(j int) []byte { return []byte(fmt.Sprintf("k%05d", j)) }
+				all := make([][]byte, n)
+				for j := range all {
+					all[j] = name(j)
+				}
+				h := &core.History{}
+				setConfig(h, kind, capacity, int64(capacity)*100+5000, all[:8])
+				for j := 0; j < n; j++ {
+					addPut(h, opPut, name(j), []byte("v1"), 100)
+				}
+				h.Add(opClear, "Clear")
+				for j := 0; j < 40; j++ {
+					addPut(h, opPut, name(j), []byte("v2"), 100)
+				}
+				h.Add(opGet, "Get", core.B(name(0)))
+				yield(h)
+			}
+		}
+		return
+	}
 	// LARGE-POPULATION histories (beyond the small scope): a cache of several hundred entries filled past its capacity; a threshold
 	// or batch boundary inside the eviction path shows here and nowhere else
 	for kind := 0; kind < 2; kind++ {
